@@ -91,8 +91,15 @@ def pack : Handler := fun args impl =>
 def hdrsweep : Handler := fun _ impl =>
   { model := "ok", oracle := if impl = "ok" then none else some s!"header word sweep: {impl}" }
 
+/-- `hdr2 w1 w2`: a receiver that held the header w1 unpacks w2: unpacking sets every field, so the outcome is that of
+    unpacking w2 into a fresh value -/
+def hdr2 : Handler := fun args impl =>
+  match args with
+  | [_, w2] => hdr [w2] impl
+  | _ => unmodelled
+
 def handlers : List (String × Handler) :=
-  [("find", find), ("findmut", findmut), ("hdr", hdr), ("pack", pack), ("hdrsweep", hdrsweep)]
+  [("find", find), ("findmut", findmut), ("hdr", hdr), ("hdr2", hdr2), ("pack", pack), ("hdrsweep", hdrsweep)]
 
 end OFV.Driver.C15
 
